@@ -638,9 +638,23 @@ func flushContextRule(o *Ob) {
 		if o.Check(ta != nil && ta.CommaOk, "getter-assert|"+n, n+" must type-assert what it read (comma-ok)", vc) {
 			o.Check(types.Identical(ta.AssertedType, s.typ), "getter-type|"+n, n+" asserts "+typeStr(ta.AssertedType)+" but "+fnName(s.fn)+" stores "+typeStr(s.typ)+": the value would never be found", ta)
 			for _, ret := range (&Walk{Fn: fn}).FromEntry().Returns() {
-				x0, ok0 := ret.Results[0].(*ssa.Extract)
-				x1, ok1 := ret.Results[1].(*ssa.Extract)
-				o.Check(ok0 && ok1 && x0.Tuple == ssa.Value(ta) && x1.Tuple == ssa.Value(ta) && x0.Index == 0 && x1.Index == 1, "getter-return|"+n, n+" must return what it read and whether it was there", ret)
+				// what was read and whether it was there; (zero, false) is the other possible answer
+				good := true
+				for idx := 0; idx < 2; idx++ {
+					hit := false
+					for _, a := range AltsOf(ret.Results[idx]) {
+						if x, ok := a.V.(*ssa.Extract); ok && x.Tuple == ssa.Value(ta) && x.Index == idx {
+							hit = true
+							continue
+						}
+						k, isC := a.V.(*ssa.Const)
+						if !isC || idx == 1 && e.X(fn, a.V) != "false" || idx == 0 && !(k.Value == nil || e.X(fn, a.V) == `""` || e.X(fn, a.V) == "0") {
+							good = false
+						}
+					}
+					good = good && hit
+				}
+				o.Check(good, "getter-return|"+n, n+" must return what it read and whether it was there", ret)
 			}
 		}
 	}
